@@ -32,13 +32,49 @@ func judge(c *sim.Case, r *sim.Result) (string, string) {
 	allOK := bySteps == "finished"
 	switch {
 	case stopCall < 0:
-		// zone A: never stopped
+		// zone A: never stopped. "What happened" is read off the executor trace,
+		// not off the reported step states alone: a step whose command failed on
+		// its last attempt has failed, whatever its node says.
+		if c.TimeoutP == 0 {
+			for name, st := range sim.Analyze(r.Trace) {
+				if sim.IsHandler(name) || len(st.Enters) == 0 {
+					continue
+				}
+				lastAtt := 0
+				for att := range st.ExitOf {
+					if att > lastAtt {
+						lastAtt = att
+					}
+				}
+				if e := st.ExitErr[lastAtt]; lastAtt > 0 && e != "" && r.Status == "finished" {
+					return fmt.Sprintf("the command of step %q failed on its last attempt (%d: %s), the step is reported %q and the run succeeded — a run in which a step failed must be reported failed", name, lastAtt, e, r.Final[name].Status), "zoneA:no-stop"
+				}
+			}
+		}
 		return sim.JudgeHandlers(c, r, []string{bySteps}), "zoneA:no-stop"
 	case stopRet >= 0 && (stopRet < last || (c.Stop != nil && c.Stop.Trigger == "before")):
 		// zone B: the stop request had returned before the last step event
 		want := "canceled"
 		if allOK {
 			want = "finished"
+		}
+		// Race-free evidence that the run went on although it had been stopped: a
+		// step D was launched only after the stop request had returned (that alone
+		// can be a launch the loop had decided on just before), and a dependent S
+		// of D was launched as well — S can only have been chosen by a pass of the
+		// loop that began after D had ended, long after the request was accepted.
+		// Such a run was stopped before completing: canceled, whatever its steps did.
+		an := sim.Analyze(r.Trace)
+		for _, s := range c.Steps {
+			st := an[s.Name]
+			if st == nil || len(st.Creates) == 0 {
+				continue
+			}
+			for _, d := range s.Depends {
+				if dt := an[d]; dt != nil && len(dt.Creates) > 0 && dt.Creates[0] > stopRet && r.Status != "canceled" {
+					return fmt.Sprintf("the stop request had returned (seq %d) before step %q was launched (seq %d); its dependent %q was launched after that (seq %d) and the run is reported %q — a run stopped before completing must be reported canceled", stopRet, d, dt.Creates[0], s.Name, st.Creates[0], r.Status), "zoneB:stop-before-last-step-event"
+				}
+			}
 		}
 		return sim.JudgeHandlers(c, r, []string{want}), "zoneB:stop-before-last-step-event"
 	default:
